@@ -19,6 +19,8 @@ pub enum Req {
     Eq(usize, usize),
     Mux(usize, usize, usize),
     Adder(usize, usize, usize),
+    /// one-bit comparator (x, y, signed): returns (x < y, x > y); signed reads a set bit as -1
+    Cmp(usize, usize, bool),
 }
 
 #[derive(Clone)]
@@ -60,6 +62,14 @@ fn literal(req: Req, tt: &[u16], mask: u16) -> Vec<u16> {
         Req::Eq(a, b) => vec![!(tt[a] ^ tt[b]) & mask],
         Req::Mux(s, a, b) => vec![(tt[s] & tt[a]) | (!tt[s] & tt[b] & mask)],
         Req::Adder(a, b, c) => vec![tt[a] ^ tt[b] ^ tt[c], (tt[a] & tt[b]) | (tt[a] & tt[c]) | (tt[b] & tt[c])],
+        Req::Cmp(a, b, signed) => {
+            let (x_only, y_only) = (tt[a] & !tt[b] & mask, !tt[a] & tt[b] & mask);
+            if signed {
+                vec![x_only, y_only]
+            } else {
+                vec![y_only, x_only]
+            }
+        }
     }
 }
 
@@ -74,6 +84,10 @@ fn apply(b: &mut Builder, req: Req) -> Vec<usize> {
         Req::Adder(x, y, c) => {
             let (s, c) = b.push_adder(x, y, c);
             vec![s, c]
+        }
+        Req::Cmp(x, y, signed) => {
+            let (lt, gt) = b.push_comparator_circuit(1, &[x], signed, &[y], signed);
+            vec![lt, gt]
         }
     }
 }
@@ -124,6 +138,15 @@ fn actions(avail: &[usize], m: usize, rich: bool) -> Vec<Req> {
         }
         for &c in avail {
             v.push(Req::Adder(2, 2 + m - 1, c));
+        }
+        // comparators over the inputs, the same pair once unsigned and once signed
+        for a in 2..2 + m {
+            for b in 2..2 + m {
+                if a != b {
+                    v.push(Req::Cmp(a, b, false));
+                    v.push(Req::Cmp(a, b, true));
+                }
+            }
         }
     }
     v
@@ -416,6 +439,7 @@ fn req_name(r: Req) -> &'static str {
         Req::Eq(..) => "eq",
         Req::Mux(..) => "mux",
         Req::Adder(..) => "adder",
+        Req::Cmp(..) => "comparator",
     }
 }
 
@@ -506,7 +530,7 @@ pub fn run(tier: Tier) -> i32 {
         }),
         assumptions: vec![
             "truth tables over <= 3 inputs computed by the harness from the builder snapshot (hook H1)".into(),
-            "request alphabet: xor/and over ordered pairs of all available wires, not, and (rich) or/eq/mux(selector=input)/adder".into(),
+            "request alphabet: xor/and over ordered pairs of all available wires, not, and (rich) or/eq/mux(selector=input)/adder/one-bit comparators over the inputs (unsigned and signed)".into(),
         ],
         start,
     };
